@@ -230,7 +230,7 @@ Section Stream.
   Theorem stream_world_wf : tworld_wf SW C.
   Proof.
     unfold tworld_wf. split.
-    - intros w. rewrite now_SW. cbn [snd]. reflexivity.
+    - intros w bs. unfold SW, stream_world. cbn [t_write]. apply N.le_refl.
     - intros w n. unfold SW, stream_world. cbn [t_readfull].
       set (s := match w with VL l => unbytes l | _ => [] end).
       assert (Hs : bytesb s = true).
